@@ -111,6 +111,7 @@ struct CaseData
   S normalW = 0;                   // last coordinate of homogeneous normals (0 as the ICP caller pre-fills, or 1 = default-constructed)
   bool noisy = false;
   double theta = 0;                // rotation angle (>= 0)
+  double L = 1;                    // cloud size
   std::array<LD, D + (D == 2 ? 1 : 3)> xTrue;   // (t, w)
 };
 
@@ -201,7 +202,7 @@ P makePoint(const std::array<S, D> & a, S w)
 }
 
 template<typename P, typename S, int D>
-Eigen::Matrix<S, D + 1, D + 1> solve(const CaseData<S, D> & cd, bool pre, bool aligned)
+Eigen::Matrix<S, D + 1, D + 1> solve(const CaseData<S, D> & cd, bool pre, bool aligned, bool warm = false)
 {
   PointSet<P> src, tgt;
   NormalSet<P> nrm;
@@ -219,6 +220,25 @@ Eigen::Matrix<S, D + 1, D + 1> solve(const CaseData<S, D> & cd, bool pre, bool a
     for (int r = 0; r < cd.n; ++r) {corr.emplace_back(static_cast<size_t>(cd.si[r]), static_cast<size_t>(cd.ti[r]));}
   }
   FindRigidTransformationByLeastSquares<P> est;
+  if (warm) {
+    // the estimator object has a past: a LARGER, unrelated problem (coordinates 100x larger) solved first through the
+    // aligned overload, so that any state kept beyond the current problem's rows is garbage for the current problem
+    vf::Rng wr(0x5eedULL + static_cast<uint64_t>(cd.n) * 131 + static_cast<uint64_t>(cd.src.size()));
+    const size_t nw = 3 * static_cast<size_t>(cd.n) + 7;
+    PointSet<P> ws, wt;
+    NormalSet<P> wn;
+    for (size_t k = 0; k < nw; ++k) {
+      std::array<S, D> a, b, nv;
+      double nn = 0;
+      for (int d = 0; d < D; ++d) {
+        a[d] = static_cast<S>(100.0 * cd.L * wr.uniform(-1, 1)); b[d] = static_cast<S>(100.0 * cd.L * wr.uniform(-1, 1));
+        double g = wr.gauss(); nv[d] = static_cast<S>(g); nn += g * g;
+      }
+      for (int d = 0; d < D; ++d) {nv[d] = static_cast<S>(nv[d] / std::sqrt(nn > 0 ? nn : 1.0));}
+      ws.push_back(makePoint<P, S, D>(a, S(1))); wt.push_back(makePoint<P, S, D>(b, S(1))); wn.push_back(makePoint<P, S, D>(nv, cd.normalW));
+    }
+    (void)est.find(ws, wt, wn);
+  }
   if (!pre) {
     return aligned ? est.find(src, tgt, nrm) : est.find(src, tgt, nrm, corr);
   }
@@ -280,6 +300,7 @@ void body(vf::Ctx & c)
   vf::Rng rng(c.s.seed("content"));
 
   cd.theta = theta;
+  cd.L = L;
   cd.noisy = noise != 0;
   const int Ns = n + extraS, Nt = n + extraT;
   // index maps
@@ -397,6 +418,8 @@ void body(vf::Ctx & c)
   c.labelIf(n >= 100, "n>=100");
   c.labelIf(cd.normalW == S(1), "homogeneous-normal-w=1");
   c.nontrivial(theta != 0 && n >= 2 * p);
+  const int reuseVariant = static_cast<int>(c.s.i("reused_estimator_variant", 0, 3));   // (aligned, homogeneous) bits
+  c.label("estimator-reused(larger-problem-first)");
   c.commit();
 
   // ---------------- execution: 8 solves ----------------
@@ -493,6 +516,20 @@ void body(vf::Ctx & c)
           static_cast<double>(d), static_cast<double>(2 * fwd[ip])));
       }
     }
+  }
+  // (v) history independence: an estimator that solved a larger, unrelated problem first must give the answer of a
+  // fresh estimator (same arithmetic on the same rows; compared at the forward tolerance, not bitwise)
+  for (int ip = 0; ip < 2; ++ip) {
+    const Ref & R = ip ? pre : raw;
+    if (!R.checked) {continue;}
+    const int ia = reuseVariant & 1, ih = (reuseVariant >> 1) & 1;
+    Eigen::Matrix<S, D + 1, D + 1> M = ih ? solve<Homo, S, D>(cd, ip != 0, ia != 0, true) : solve<Cart, S, D>(cd, ip != 0, ia != 0, true);
+    std::vector<LD> xs = readBack<S, D>(c, M, std::string("reused estimator, ") + names[ip][ia][ih]);
+    for (int d = 0; d < D; ++d) {xs[d] *= R.scale;}
+    const LD d = dist(res[ip][ia][ih].x, xs, 1, 1);
+    c.maxStat("reused vs fresh estimator / tolerance", fwd[ip] > 0 ? static_cast<double>(d / (2 * fwd[ip])) : (d > 0 ? INFINITY : 0.0));
+    c.check(d <= 2 * fwd[ip], vf::fmt("%s: an estimator object that solved a larger problem before gives a different answer than a fresh one: |dx| = %.3g > %.3g (n=%d)",
+      names[ip][ia][ih], static_cast<double>(d), static_cast<double>(2 * fwd[ip]), n));
   }
   if (raw.checked && pre.checked) {
     // exact solutions of the two problems differ by the rounding of k*point in S:
